@@ -31,6 +31,7 @@ GLOBS = {
     'rate.5-drop': {'params': {'rate': 0.5}, 'draw': 0.75}, 'copy-on': {'params': {'copy': True}}, 'cls': {'kind': 'cls'},
     'cls-ext': {'kind': 'cls', 'ext': 'dict'}, 'ignore-rate0': {'params': {'rate': 0.0, 'ignore': True}}, 'skipped': {'params': {'skipped': True}},
     'disabled': {'enabled': False},
+    'in-except': {'call_context': 'except'}, 'in-finally': {'call_context': 'finally', 'ext': 'dict'},
     'sub': {'sub': True, 'ext': 'dict'}, 'sub-params': {'sub': True, 'params': {'rate': 0.0}}, 'sub-cls': {'sub': True, 'kind': 'cls', 'params': {'skipped': True}},
 }
 CLEAN2 = {'steps': [{'fn': 'in_a', 'a': ['x1'], 'ret': 'vlst'}, {'fn': 'out_a', 'a': ['x1'], 'ret': 'v1'}, {'fn': 'out_a', 'a': ['x2'], 'ret': 'v0'}]}
@@ -106,7 +107,7 @@ def build(case):
             out.append({'do': 'tick', 'd': 0.25 * (i + 1)})
     g = GLOBS[case['glob']]
     prog = {'steps': out, 'end': case['end']}
-    for k in ('ext', 'params', 'kind', 'sub'):
+    for k in ('ext', 'params', 'kind', 'sub', 'call_context'):
         if k in g:
             prog[k] = g[k]
     return prog, g
